@@ -164,6 +164,9 @@ func walkToUnescapedChar(buf []byte, char byte, startAt int, isEscaped bool) int
 func scanMetricName(buf []byte, isEscaped bool) (endAt int, err error) {
 	// unescaped comma;
 	commaAt := walkToUnescapedChar(buf, ',', 0, isEscaped)
+	if spaceAt := walkToUnescapedChar(buf, ' ', 0, isEscaped); commaAt > 0 && spaceAt > 0 && spaceAt < commaAt {
+		commaAt = -1 // no tags: the first comma already belongs to the field set
+	}
 	switch {
 	case commaAt == 0:
 		return -1, ErrMissingMetricName
